@@ -105,9 +105,12 @@ class _Expr(ast.NodeTransformer):
             elif isinstance(v, ast.FormattedValue):
                 spec = ''
                 if v.format_spec is not None:
-                    if not (isinstance(v.format_spec, ast.JoinedStr) and all(isinstance(x, ast.Constant) for x in v.format_spec.values)):
+                    if isinstance(v.format_spec, ast.Constant) and isinstance(v.format_spec.value, str):
+                        spec = v.format_spec.value      # (a constant-only nested JoinedStr was already folded)
+                    elif isinstance(v.format_spec, ast.JoinedStr) and all(isinstance(x, ast.Constant) for x in v.format_spec.values):
+                        spec = ''.join(x.value for x in v.format_spec.values)
+                    else:
                         return node
-                    spec = ''.join(x.value for x in v.format_spec.values)
                 if v.conversion == ord('r') and not spec:
                     tmpl.append('%r')
                 elif v.conversion in (-1, ord('s')) and not spec:
